@@ -687,6 +687,34 @@ def gen_case(rng, cls=None, cfg=None, base=None):
     elif not any(k.startswith("valid") for k in kinds):
         kinds[rng.randrange(n)] = "valid-full"
     case["steps"] = [gen_step(rng, case, k) for k in kinds]
+    # directed (R6-C12-m2): after a rejected full-length list proposal, a valid proposal that REPEATS what the part of the
+    # model assigned before the rejection now holds (the rejected proposal's values before its first invalid position, the
+    # last fully accepted values from there on): parts that are kept in step by copying must be copied again
+    names = names_of(case)
+    cur = None if case["init"] is None or set(case["init"]) != set(names) else [[nm, case["init"][nm]] for nm in names]
+    out = []
+    for st in case["steps"]:
+        out.append(st)
+        try:
+            kls, bad = classify(case, st)
+        except Exception:  # noqa: BLE001
+            continue
+        full_list = st["form"] == "list" and len(st["items"]) == len(names) and not st.get("surplus")
+        if kls == "valid-full" and full_list:
+            cur = [[nm, v] for nm, (_, v) in zip(names, st["items"])]
+        elif kls == "valid-full":
+            cur = None if st["form"] != "dict" else [[nm, dict((k, v) for k, v in st["items"])[nm]] for nm in names]
+        elif kls.startswith("valid"):
+            cur = None
+        elif kls == "invalid" and full_list and cur is not None and rng.random() < 0.6:
+            first = min(names.index(b) for b in bad)
+            if first > 0:
+                rep = [[nm, (st["items"][k][1] if k < first else cur[k][1])] for k, nm in enumerate(names)]
+                out.append({"form": rng.choice(["list", "dict"]), "items": rep, "log": st["log"]})
+                cur = rep
+        elif kls == "invalid":
+            cur = None
+    case["steps"] = out
     case["kind"] = "random"
     return case
 
